@@ -9,6 +9,7 @@ use crate::model::*;
 use crate::rs::*;
 use crate::sweep;
 use rspirv::binary::Assemble;
+use rspirv::dr;
 use rspirv::grammar::OperandQuantifier as Q;
 
 fn embedded_quantified(p: &Plan) -> bool {
@@ -80,6 +81,45 @@ pub fn check_plan(prelude: &[Plan], p: &Plan, st: &mut Stats) -> R {
         got.len(),
         p.opcode
     );
+    // (1b) the other assembling entry points emit the same words: assemble_into (appending), and
+    // the instruction inside a block (with and without label), a function and a module
+    {
+        let wrapf = |what: &str, words: &[u32]| -> R {
+            if words != &expect[..] {
+                return Err(Fail::new(
+                    "assemble-entry-points",
+                    format!("{}:{}", tag(p), what),
+                    format!("{} of {} emits [{}], Instruction::assemble emits [{}]", what, show_inst(&inst), show_words(words), show_words(&expect)),
+                )
+                .with_decoded(decoded()));
+            }
+            Ok(())
+        };
+        let mut into = vec![0x1234_5678u32];
+        no_panic("Instruction::assemble_into", || inst.assemble_into(&mut into)).map_err(|f| f.with_decoded(decoded()))?;
+        ensure!(into[0] == 0x1234_5678, "assemble-entry-points", tag(p), "assemble_into overwrote the buffer");
+        wrapf("assemble_into", &into[1..])?;
+        let mut blk = dr::Block::new();
+        blk.instructions.push(inst.clone());
+        let w = no_panic("Block::assemble", || blk.assemble()).map_err(|f| f.with_decoded(decoded()))?;
+        wrapf("Block(label None)::assemble", &w)?;
+        let mut func = dr::Function::new();
+        func.blocks.push(blk.clone());
+        let w = no_panic("Function::assemble", || func.assemble()).map_err(|f| f.with_decoded(decoded()))?;
+        wrapf("Function(def None)::assemble", &w)?;
+        blk.label = Some(dr::Instruction::new(spirv::Op::Label, None, Some(77), vec![]));
+        let w = no_panic("Block::assemble", || blk.assemble()).map_err(|f| f.with_decoded(decoded()))?;
+        ensure!(w.len() >= 2, "assemble-entry-points", tag(p), "labelled block assembles to {} words", w.len());
+        wrapf("Block(labelled)::assemble", &w[2..])?;
+        let mut m = dr::Module::new();
+        m.types_global_values.push(inst.clone());
+        m.functions.push(func);
+        let w = no_panic("Module::assemble", || m.assemble()).map_err(|f| f.with_decoded(decoded()))?;
+        // once as a global value, once inside the function's block
+        ensure!(w.len() == 2 * expect.len(), "assemble-entry-points", tag(p), "module with the instruction twice assembles to {} words, expected {}", w.len(), 2 * expect.len());
+        wrapf("Module::assemble (global value)", &w[..expect.len()])?;
+        wrapf("Module::assemble (block instruction)", &w[expect.len()..])?;
+    }
     // (2) parsing those words delivers an equal instruction
     let mut bin = header_words((1, 6), 1000);
     for q in prelude {
